@@ -9,3 +9,4 @@ pub mod locks;
 pub mod units;
 pub mod arith;
 pub mod prefix;
+pub mod items;
